@@ -85,7 +85,9 @@ fn probe<CF: CostFunction<Main, Cost = u64>>(eg: &EGraph<Main>, cf: CF, cf2: CF,
         }
         // extract under a random renaming of the arguments
         // one distinct numeric name per parameter (classes can have many parameters: an invocation must stay injective)
-        let names: Vec<u32> = (0..idn.m.len().max(6) as u32).map(|k| 40 + 4 * k).collect();
+        // (half of the queries use `$0`, `$1`, ..: the names stored shapes use for their own binders)
+        let base = if rng.chance(1, 2) { 0 } else { 40 };
+        let names: Vec<u32> = (0..idn.m.len().max(6) as u32).map(|k| base + 4 * k).collect();
         let mut img = names.clone();
         rng.shuffle(&mut img);
         let m: SlotMap = idn.m.iter().enumerate().map(|(k, (key, v))| (key, if rng.chance(1, 2) { slot_of_code(img[k % img.len()]) } else { v })).collect();
@@ -258,10 +260,29 @@ fn gen_ternary(rng: &mut Rng) -> Vec<Op> {
     ops
 }
 
+/// a class whose only (hence cheapest) e-node is a BINDER node with a redundant slot — `λx. x y z = λx. x y w` — alone or below
+/// another such binder; queried with arguments called `$0`, `$1`, .. the extracted binder must not capture them
+fn gen_redbinder(rng: &mut Rng) -> Vec<Op> {
+    let var = |c: u32| ATerm { v: 2, fields: vec![CField::Slot(c)], children: vec![] };
+    let app = |a: ATerm, b: ATerm| ATerm { v: 1, fields: vec![CField::App, CField::App], children: vec![a, b] };
+    let lam = |x: u32, a: ATerm| ATerm { v: 0, fields: vec![CField::Bind(x, Box::new(CField::App))], children: vec![a] };
+    let (x, u, y, z, w) = (10u32, 14u32, 4u32, 8u32, 12u32);
+    let body = |last: u32| lam(x, app(app(var(x), var(y)), var(last)));
+    let mut ops = vec![Op::Add(body(z)), Op::Add(body(w)), Op::Union(0, 1)];
+    if rng.chance(1, 2) {
+        // one level up: again a binder with a redundant slot, around the first one
+        let outer = |last: u32, inner: u32| lam(u, app(app(var(u), body(inner)), var(last)));
+        ops = vec![Op::Add(body(z)), Op::Add(body(w)), Op::Add(outer(z, z)), Op::Add(outer(w, z)), Op::Union(0, 1), Op::Union(2, 3)];
+    }
+    ops
+}
+
 pub fn run(ctx: &mut Ctx) {
     for _ in 0..ctx.count {
         let mut rng = ctx.rng.fork();
-        let (ops, rules, iters) = if rng.chance(1, 6) {
+        let (ops, rules, iters) = if rng.chance(1, 8) {
+            (gen_redbinder(&mut rng), vec![], 0)
+        } else if rng.chance(1, 6) {
             (gen_ternary(&mut rng), vec![], 0)
         } else if rng.chance(1, 2) {
             let (ops, _) = gen_history(&mut rng);
